@@ -91,6 +91,12 @@ IsConfig == Mode # "classifier"
 InvClassifier == (~IsConfig) => EveryPairInExactlyOnePartial(c.K) /\ OnlyTotalAboveFiveSpecies(c.K)
 InvPartition  == IsConfig => EveryPairInExactlyOnePartial(NSpecies(c)) /\ OnlyTotalAboveFiveSpecies(NSpecies(c))
 InvSumRule    == IsConfig => LET h == Hist(c) IN TotalIsCompositionWeightedSum(c, h) /\ CountsSymmetric(c, h)
+\* the bin index TLC computes (integer square root, then \div) is the witness k0 of BinLemma.tla, whose partition
+\* lemmas are discharged for all integers by Apalache
+InvBinIsLemmaBin == IsConfig =>
+  \A f \in 1..NFrames(c) : \A i, j \in 1..NPart(c) : i < j =>
+    \A dd \in Dist2Set(FrameH(c, f), VSub(c.frames[f][j], c.frames[f][i]), c.ppp) :
+      LET k == ISqrt2(dd) \div c.wn IN (k * c.wn) * (k * c.wn) <= dd /\ dd < ((k + 1) * c.wn) * ((k + 1) * c.wn)
 InvTypes      == IsConfig => Species(c) = 1..NSpecies(c) /\ PerFrameOK(c)
 
 LatKey == LET f == c.frames[1] IN
